@@ -596,9 +596,21 @@ func c03Check(env *h.Env, c *c03Case) error {
 			}
 		}
 		sawAny := firstBad > 0
-		if bp := string(c.Stats[firstBad].Path); strings.ContainsRune(bp, 0) {
-			// (a NUL byte is only found out by the file system: the entry itself still
-			// takes part in the comparison with the old destination)
+		specOK := func() bool {
+			var seq []h.SpecElem
+			for i := 0; i <= firstBad; i++ {
+				k := h.SpecFile
+				if os.FileMode(c.Stats[i].Mode).IsDir() {
+					k = h.SpecDir
+				}
+				seq = append(seq, h.SpecElem{Path: string(c.Stats[i].Path), Kind: k})
+			}
+			return h.StreamSpec(seq) < 0
+		}
+		if bp := string(c.Stats[firstBad].Path); strings.ContainsRune(bp, 0) && specOK() {
+			// (a NUL byte in an otherwise well-placed path is only found out by the file
+			// system: the entry itself still takes part in the comparison with the old
+			// destination)
 			last, sawAny = path.Clean(bp), true
 		}
 		for p, b := range before {
